@@ -83,7 +83,7 @@ theorem takeAux_throttled_srcQ : ∀ (fuel : Nat) (s : Irc), s.fast = [] →
   | 0, _, _, _ => by intro e he; cases he
   | fuel + 1, s, hf, ht => by
     intro e he
-    unfold takeAux at he
+    unfold takeAux takeBody at he
     rw [hf] at he
     dsimp only at he
     split at he
@@ -105,7 +105,7 @@ theorem takeAux_srcQ : ∀ (fuel : Nat) (s : Irc) (e : Ev) (m : Msg), e ∈ (tak
   | 0, _, _, _ => by intro he; cases he
   | fuel + 1, s, e, m => by
     intro he hs
-    unfold takeAux at he ⊢
+    unfold takeAux takeBody at he ⊢
     split at he
     · rename_i m0 rest hf
       split at he
@@ -278,7 +278,7 @@ theorem pingBranch_die (s : Irc) : DieOk (pingBranch s) := by
 theorem takeAux_die : ∀ (fuel : Nat) (s : Irc), DieOk (takeAux fuel s)
   | 0, _ => DieOk.of_not (by simp [takeAux])
   | fuel + 1, s => by
-    unfold takeAux
+    unfold takeAux takeBody
     split
     · split
       · exact DieOk.of_not (by simp)
